@@ -78,6 +78,13 @@ def all_plans():
                 plans.append({'kind': 'raise', 'exc': 'OSError', 'point': 'mid_file', 'file': 0,
                               'k': k, 'workers': workers, 'nfiles': nfiles, 'gz': gz,
                               'decode': 'ignore'})
+    # natural faults: a damaged gzip file among good ones (worker processes) or alone (in-process)
+    for how in ('crc', 'trunc', 'junk'):
+        for workers, nfiles in ((2, 3), (2, 1)):
+            plans.append({'kind': 'corrupt', 'how': how, 'point': 'none', 'file': 0, 'k': 1,
+                          'workers': workers, 'nfiles': nfiles, 'gz': True, 'decode': 'ignore'})
+    plans.append({'kind': 'none', 'point': 'none', 'file': 0, 'workers': 2, 'nfiles': 1,
+                  'gz': True, 'decode': 'ignore'})
     # a task failing in the CALLING process (single file, undecodable bytes inside an open
     # section), then runs re-using the same search definition objects (1 file / 2 files)
     for end in (True, False):
@@ -201,6 +208,7 @@ def judge(rep, item, mo, control):
            (f" hold={plan['hold']}s" if plan.get('hold') else '') + \
            (f" other files {plan['big']} lines, results queue of {plan['queue_size']}"
             if plan.get('big') else '') + \
+           (f" damaged gzip ({plan['how']})" if plan['kind'] == 'corrupt' else '') + \
            (f" {'gzip' if plan.get('gz') else 'plain'} files, {plan.get('exc', 'exception')}, "
             f"decode_errors={plan['decode']}" if plan.get('decode') else '')
     if 'start' not in r:
@@ -290,6 +298,9 @@ def run(tier, seed, replay_case=None):
         must += [p for p in plans if p.get('big') and p['workers'] == 1
                  and p['point'] in ('none', 'before_open')]
         must += [p for p in plans if p['kind'] == 'inproc']
+        must += [p for p in plans if p['kind'] == 'corrupt' and
+                 (p['how'], p['nfiles']) in (('crc', 3), ('trunc', 1))]
+        must += [p for p in plans if p['kind'] == 'none' and p.get('gz') and p['nfiles'] == 1]
         must += [p for p in plans if p.get('decode') and p.get('gz') and
                  (p['kind'] == 'none' or (p['k'] == 3 and p['workers'] == 2))]
         rest = [p for p in plans[2:] if p not in must]
